@@ -5,10 +5,10 @@
               (Spec/StateSpace.lean: the state and output equations of a realisation reproduce b(s)/a(s)).
   Model side: `nodalEq`, `meshEq` (Model/Formulations.lean), `ccf`, `ocf`, `dcf` (Model/Realisations.lean).
   Findings F13, C15-b, C15-d, C15-g, C15-h, C15-j, C15-f are fixed in /repo: the models mirror the fixed code
-  and the theorems are at full strength.  Finding C15-c (mesh analysis identifies parallel components by
-  node pair) is still open: `pe = false` is the code as it is (`mesh_eqs_hold_partial`, excluding graphs
-  with parallel components, which the oracle of harness/c15.py covers on the real code), `pe = true` the
-  code with the proposed patch (`mesh_eqs_hold`).
+  and the theorems are at full strength.  Finding C15-c (mesh analysis identified parallel components by
+  node pair): the model mirrors the repaired code (fix-C15-c: a component is identified by its graph edge,
+  `pe = true`) and `mesh_eqs_hold` is stated for it at full strength; the pre-fix variant `pe = false` stays
+  executable for the correspondence on a tree that does not have the fix yet.
   Only property theorems live here; helper lemmas are in Proofs/Formulations.lean, Proofs/Realisations.lean.
 -/
 import Lcapy.Proofs.Formulations
@@ -112,7 +112,8 @@ def MeshConsistent (patched : Bool) (kind : Kind) (s : K) (cs : List (Cpt K)) (l
   ∀ ab ∈ loopPairs loop, ∀ idx c, component (buildGraph cs) ab.1 ab.2 = some (idx, c) → isV c = false →
     meshCurrent patched (buildGraph cs) loops idx c im = -(through kind s x c)
 
-/-- **mesh_eqs_hold** (code with the proposed patch for C15-c, `pe = true`): for every netlist, every list of loops handed in by the cycle
+/-- **mesh_eqs_hold** (the code with fix-C15-c, `pe = true`: a component is the graph edge that holds it, parallel
+    components included): for every netlist, every list of loops handed in by the cycle
     search and every loop among them that passes the decidable `isSimpleCycle` check against the
     circuit graph, the KVL equation `_process_loop` writes is satisfied by any solution of the
     circuit laws, with mesh currents that carry that solution. -/
@@ -139,24 +140,10 @@ example : MeshConsistent true .dc 0 exCkt [exLoop] exSol (fun _ => 3/4) exLoop :
   · simp only [meshCurrent, nodes2, if_true, exAcc2]
     norm_num [accCoeffs, lsum, through, exSol, vd, volt]
 
-/- Full statement for the code as it is -- FALSE (finding C15-c, open):
-   theorem mesh_eqs_hold_asis … (hcons : MeshConsistent false …) (hf : meshEq false … = some f) : f.eval im = 0
-   fails for `V1 1 0 step 6; R1 1 2 3; R2 2 0 5; R3 2 0 7` (parallel R2, R3). -/
-
-/-- **mesh_eqs_hold_partial** (code as it is, `pe = false`): the same conclusion when the graph has
-    no dummy node, i.e. no two components join the same pair of nodes (C15-c).  The excluded region is
-    covered by the oracle on the real code.  Initial conditions are included (C15-d is fixed). -/
-theorem mesh_eqs_hold_partial (kind : Kind) (s : K) (cs : List (Cpt K)) (x : Ix → K) (loops : List (List GNode))
-    (im : Nat → K) (hdef : MeshDefined kind s cs) (hlaws : Laws kind s cs x) (loop : List GNode)
-    (hcyc : isSimpleCycle (buildGraph cs) loop = true)
-    (hnopar : ∀ e ∈ buildGraph cs, ∃ n, e.b = GNode.real n)
-    (hcons : MeshConsistent false kind s cs loops x im loop)
-    (f : MeshForm K) (hf : meshEq false kind s (buildGraph cs) loops loop = some f) : f.eval im = 0 := by
-  rw [meshEq_eval false kind s (buildGraph cs) loops x im (loopPairs loop) ?_ f hf]
-  · exact kvl_telescopes x loop
-  · intro ab hab t ht
-    exact meshTerm_eval false kind s cs (buildGraph cs) (buildGraph_ok cs) loops x im hlaws hdef
-      (fun _ => hnopar) ab (adjacent_of_cycle _ loop hcyc ab hab) (hcons ab hab) t ht
+/- The pre-fix code (components identified by their node pair, `pe = false`, finding C15-c) is kept in the model only
+   so that the correspondence can tell which of the two a given source tree is; the statement about it
+   (`Formulations.mesh_eqs_hold_prefix`: graphs without dummy nodes only) lives in Proofs/Formulations.lean and is
+   not part of the property: for `V1 1 0 step 6; R1 1 2 3; R2 2 0 5; R3 2 0 7` the pre-fix equation is false. -/
 
 /-! ## canonical state-space realisations of a transfer function (continuous and discrete time) -/
 
